@@ -345,8 +345,15 @@ class GraphInitializers(collections.UserDict[str, "_core.Value"]):
         """Update the initializers. Nothing is modified if any of the new items is rejected."""
         items = dict(other, **kwargs)
         # Validate all items before taking ownership of any of them
+        keys_of_unnamed: dict[int, str] = {}
         for key, value in items.items():
             self._check_item(key, value)
+            if not value.name and keys_of_unnamed.setdefault(id(value), key) != key:
+                # The value is named after the first key, which the second key cannot match
+                raise ValueError(
+                    f"Value {value!r} does not have a name and is given under two keys: "
+                    f"'{keys_of_unnamed[id(value)]}' and '{key}'"
+                )
         super().update(items)
 
     def __ior__(self, other):
